@@ -27,7 +27,7 @@ var c15Tokens = []string{"a", "b", "x", "0", "1", "-", ".", `"s"`, "`s`", `"/a"`
 // extended alphabet (used for k<=2 [thorough k<=3] and for the 1-edit neighbourhoods): case variants of the keywords,
 // number shapes, identifier shapes, other blanks, odd quotes and foreign operators
 var c15Ext = append(append([]string{}, c15Tokens...), "AND", "Or", "NOT", "In", "IS", "Empty", "ANY", "As", "Matches", "Contains", "ALL",
-	"00", "01", "10", "1.", ".5", "1.5", "1e3", "+1", "-1", "a-b", "a_b", "a/b", "A", "é", "a1", "1a", "\t", "\n", "  ", `"\\"`, "``", `""`, "'s'", `"a b"`, "`a\nb`", `"/"`, `"/a/"`, `"/a~1b"`, `"//a"`,
+	"00", "01", "10", "a.01", "a.00", "1.", ".5", "1.5", "1e3", "+1", "-1", "a-b", "a_b", "a/b", "A", "é", "a1", "1a", "\t", "\n", "  ", `"\\"`, "``", `""`, "'s'", `"a b"`, "`a\nb`", `"/"`, `"/a/"`, `"/a~1b"`, `"//a"`,
 	// JSON-pointer escapes at every position of a segment, adjacent escapes, the pair whose decoding order matters (~01), a lone tilde
 	`"/a~01b"`, `"/a~1"`, `"/a~0"`, `"/~1a"`, `"/~0~1"`, `"/~1~0"`, `"/~01"`, `"/~10"`, `"/a~"`, `"/~"`, `"/a~2"`, `"/a~1/~0b"`,
 	"\"a\nb\"", "`a\rb`", "\"a\rb\"", "\"a\tb\"", "`\r`", "\"\n\"",
@@ -208,6 +208,7 @@ func c15Derivations(thorough bool) []string {
 	// hand-written layouts the renderer does not produce
 	out = append(out, "a == 1", "a==1", "(a == 1)", " ( a == 1 ) ", "not a == 1", "a == 1 and b == 2 or x is empty", "a.b.0 == x", `a["b"].c != "s"`, "1 in a", "a contains 1", "a not contains 1",
 		// selector-shaped values (the value text is the selector's dotted rendering) and identifiers that start with a keyword
+		"a.01 == 1", "a.007.b == 1", "x == v1.01", "any a.00 as x { x.010 == 1 }", "a.18446744073709551616 == 1",
 		"x == a.0", "x == a.b.c", `x == a["b c"].d`, "a.b in x", "a.0 not in x.y", `x != "/a/0"`, `"/a/b" in x`, "x contains a.b",
 		"notes == 1", "android != nothing", "order is empty", "inside in isempty", "anyone matches allow", "any asset as ask { ask == notx }",
 		"all matchesx as containsx, iss { iss is not empty and not nota == emptyx }", "x == not", "x == in", "not nothing == 1",
